@@ -238,6 +238,13 @@ def menu(fmt):
     add("S10.values", "sign.additional_values=0", lambda s: find(s, "signs", 10).__setitem__("elements", [("TrafficSignIDGermany", "STOP", [])]))
     add("S10.elements", "sign.elements=2", lambda s: find(s, "signs", 10).__setitem__("elements", [("TrafficSignIDGermany", "MAX_SPEED", ["50"]), ("TrafficSignIDGermany", "NO_OVERTAKING_START", [])]))
     add("T11.offset", "light.offset=0", lambda s: find(s, "lights", 11).__setitem__("offset", 0))
+    for off in (1, 5, 6, 12):
+        add("T11.offset", f"light.offset={off}", lambda s, off=off: find(s, "lights", 11).__setitem__("offset", off))
+    sig = lambda t, **kw: dict({"time_step": t, "horn": False, "indicator_left": False, "indicator_right": False, "braking_lights": False, "hazard_warning_lights": False,
+                                "flashing_blue_lights": False}, **kw)
+    add("O32.signals", "set-based-obstacle.signal_series+initial_signal_state", lambda s: find(s, "obstacles", 32).update(
+        initial_signal_state=sig(0, indicator_right=True), signal_series=[sig(1, braking_lights=True), sig(2, horn=True, hazard_warning_lights=True)]))
+    add("O32.signals", "set-based-obstacle.signal_series-only", lambda s: find(s, "obstacles", 32).update(signal_series=[sig(1, braking_lights=True), sig(2, indicator_left=True)]))
     add("T11.offset", "light.offset=7", lambda s: find(s, "lights", 11).__setitem__("offset", 7))
     add("T11.active", "light.active=False", lambda s: find(s, "lights", 11).__setitem__("active", False))
     if fmt == "pb":     # the 2020a XML schema requires a cycle with at least one element; the .proto has a repeated (possibly empty) element list
@@ -387,6 +394,9 @@ def menu(fmt):
                                                                     s["pps"][0]["goal"]["states"][1]["attrs"].__setitem__("position", lanelet_goal_shape(s, [2, 1]))))
     add("PP.goal.lanelets", "goal.lanelets=both-goal-states", lambda s: (s["pps"][0]["goal"].__setitem__("lanelets", {0: [1], 1: [2]}),
                                                                         s["pps"][0]["goal"]["states"][0]["attrs"].__setitem__("position", lanelet_goal_shape(s, [1]))))
+    add("PP.goal.lanelets", "goal.lanelets=first-goal-state-only", lambda s: (s["pps"][0]["goal"].__setitem__("lanelets", {0: [1]}),
+                                                                             s["pps"][0]["goal"]["states"][0]["attrs"].__setitem__("position", lanelet_goal_shape(s, [1])),
+                                                                             s["pps"][0]["goal"]["states"][1]["attrs"].__setitem__("position", ["circle", 3.0, 30.0, 2.0])))
     add("PP.goal.n", "goal.states=1", lambda s: (s["pps"][0]["goal"].__setitem__("states", s["pps"][0]["goal"]["states"][:1]), s["pps"][0]["goal"].__setitem__("lanelets", None)))
     add("PP.init.acc", "pp.initial_state.acceleration=unset", lambda s: s["pps"][0]["initial_state"]["attrs"].pop("acceleration"))
     add("PP.second", "second-planning-problem", lambda s: s["pps"].append({"id": 101, "initial_state": spec.init_state(x=3.0, y=5.25, o=0.0, v=5.0),
